@@ -1,7 +1,8 @@
 _D = ('determ', 8, 120)
 _C = ('close', 30, 300)
+_H = ('hostile', 12, 600, [2000194])   # corpus seed: the pacing timer re-armed at `now` (fixed in ecb8a58)
 PROPS = {
-    'C20': dict(sim=[_D, _C],
-                modelled='timer.rs TimerTable (set/stop/get/next_timeout/is_expired, Timer::VALUES order: generated), the lifecycle timers (Close, Idle) and every lifecycle event carrying an instant; TimerTable::next_timeout and the expired set are validated against the model at every serviced timeout of the simulator',
+    'C20': dict(sim=[_D, _C, _H],
+                modelled='the tail of Pacer::delay (a wake-up instant only when the delay is non-zero; shape anchored); timer.rs TimerTable (set/stop/get/next_timeout/is_expired, Timer::VALUES order: generated), the lifecycle timers (Close, Idle) and every lifecycle event carrying an instant; TimerTable::next_timeout and the expired set are validated against the model at every serviced timeout of the simulator',
                 not_modelled='hidden-input freedom of the Rust code is checked differentially (replay / shifted replay / spurious calls on whole simulated connections), not proved; loss-detection, pacing, key-discard, path-validation, CID and ack-delay timer expressions are not in the Lean model (growth)'),
 }
